@@ -3,14 +3,18 @@ package main
 // Fault and concurrency scenario families (C09, C12, C14, C19).
 
 import (
+	"bytes"
 	"fmt"
 	"math/rand"
 	"sort"
+	"strings"
 )
 
 func init() {
 	families["fault_merge"] = genFaultMerge
 	families["faults_big"] = genFaultsBig
+	families["wide_tail"] = genWideTail
+	families["aligned"] = genAligned
 	families["fault_dv_partial"] = genFaultDvPartial
 	families["conc_write"] = genConcWrite
 	families["fault_transient"] = genFaultTransient
@@ -1493,5 +1497,109 @@ func genConcBig(r *rand.Rand, i int) Scenario {
 		visits(4, 12), visits(1, 12), visits(5, 3), visits(4, 12),
 	}
 	sc.Ops = append(sc.Ops, Op{Op: "par", Groups: groups})
+	return sc
+}
+
+// wide_tail: a merge whose unified field list has more than 1024 (2048) fields - the per-field tables at the end
+// of the file (doc-value locations, field index) are tens of KiB long - with the channel closed / the destination
+// failing at offsets spread over that tail (C11, C12)
+func genWideTail(r *rand.Rand, i int) Scenario {
+	nf := []int{1030, 1100, 1500, 2060}[i%4] + r.Intn(40)
+	names := make([]string, nf)
+	for k := range names {
+		names[k] = fmt.Sprintf("w%04d", k)
+	}
+	lo, hi := nf/3+r.Intn(nf/3), nf/2+r.Intn(nf/3) // segment 1: names[:hi], segment 2: names[lo:]
+	if lo > hi {
+		lo, hi = hi, lo
+	}
+	mk := func(pfx string, fs []string) Batch {
+		nd := 2 + r.Intn(3)
+		b := make(Batch, nd)
+		for d := 0; d < nd; d++ {
+			id := []byte(fmt.Sprintf("%s%d", pfx, d))
+			b[d] = Doc{{Name: "_id", Len: 1, Stored: true, Value: B(id), Terms: []TermOcc{{Term: B(id), Freq: 1, Locs: []Loc{}}}}}
+		}
+		for k, f := range fs {
+			d := k % nd
+			fi := FieldInst{Name: f, Len: 1, DV: k%3 != 0, Value: Bytes{}, Terms: []TermOcc{{Term: B(termVocab[k%4]), Freq: 1, Locs: []Loc{}}}}
+			if k%11 == 0 {
+				fi.Terms = []TermOcc{} // a field without terms
+				fi.Len = 0
+				fi.DV = false
+			}
+			b[d] = append(b[d], fi)
+		}
+		return b
+	}
+	b1, b2 := mk("a", names[:hi]), mk("b", names[lo:])
+	sc := Scenario{Name: fmt.Sprintf("wide_tail-%d", i), NormKind: "code", Universe: []string{"_id", names[0], names[lo], names[nf-1]},
+		Batches: []Batch{b1, b2}, Tags: []string{"wide_tail"}}
+	sc.Ops = append(sc.Ops, Op{Op: "build", Seg: 1, Batch: 0, Mode: 0}, Op{Op: "build", Seg: 2, Batch: 1, Mode: 0},
+		Op{Op: "wfaults", In: []int{1, 2}, Drops: []DropSpec{{Kind: "nil"}, {Kind: "set", Docs: []int{0}}}, Bufs: []int{[]int{1, 16, 64}[r.Intn(3)]},
+			Tail: 30 * nf * 2, Stop: 400 + r.Intn(300)},
+		Op{Op: "merge", File: 1, In: []int{1, 2}, Drops: []DropSpec{{Kind: "nil"}, {Kind: "set", Docs: []int{0}}}, Mode: 0, Buf: 64},
+		Op{Op: "load", File: 1, Seg: 3, Backing: "mem"}, Op{Op: "observe", Seg: 3, Level: "light"})
+	return sc
+}
+
+// aligned: a segment whose data section is an exact multiple of 1 MiB (64 KiB, 2 MiB) - the length of an
+// incompressible stored value and of a field name are tuned with the builder of the tree under check until the size
+// lines up - built, persisted, loaded from memory and from a file, persisted again and merged (C04, C11)
+func genAligned(r *rand.Rand, i int) Scenario {
+	block := []int{1 << 20, 1 << 20, 1 << 16, 2 << 20}[i%4]
+	size, pad := block*(1+i%3)-20000+r.Intn(10000), 140
+	universe := []string{"_id", "blob"}
+	mk := func() Batch {
+		return Batch{
+			Doc{{Name: "_id", Len: 1, Stored: true, Value: B([]byte("a")), Terms: []TermOcc{{Term: B([]byte("a")), Freq: 1, Locs: []Loc{}}}},
+				{Name: "blob", Len: 1, Stored: true, Value: PrngBlob(7000+i, size), Terms: []TermOcc{{Term: B([]byte("x")), Freq: 1, Locs: []Loc{}}}},
+				{Name: "p" + strings.Repeat("q", pad-1), Len: 1, Value: Bytes{}, Terms: []TermOcc{{Term: B([]byte("y")), Freq: 1, Locs: []Loc{}}}}},
+			Doc{{Name: "_id", Len: 1, Stored: true, Value: B([]byte("b")), Terms: []TermOcc{{Term: B([]byte("b")), Freq: 1, Locs: []Loc{}}}}}}
+	}
+	// the length of the file the tree's own builder and writer produce for the batch (-1: they failed)
+	measure := func(b Batch) (n int) {
+		defer func() {
+			if recover() != nil {
+				n = -1
+			}
+		}()
+		seg, _, err := implCur.New(b.Norm().Documents(), normFunc("code", universe))
+		if err != nil {
+			return -1
+		}
+		var buf bytes.Buffer
+		if _, err := seg.WriteTo(&buf, nil); err != nil {
+			return -1
+		}
+		return buf.Len() - 44
+	}
+	for iter := 0; iter < 16; iter++ {
+		d := measure(mk())
+		if d < 0 {
+			break
+		}
+		rest := (block - d%block) % block
+		if rest == 0 {
+			break
+		}
+		if rest > 200 {
+			size += rest - 100 // incompressible: a byte more of value is a byte more of file (give or take a block header)
+		} else {
+			pad += rest // field names are written verbatim
+		}
+	}
+	b := mk()
+	sc := Scenario{Name: fmt.Sprintf("aligned-%d", i), NormKind: "code", Universe: universe, Batches: []Batch{b}, Tags: []string{"aligned"}}
+	sc.Ops = append(sc.Ops, Op{Op: "build", Seg: 1, Batch: 0, Mode: 0}, Op{Op: "persist", Seg: 1, File: 1},
+		Op{Op: "load", File: 1, Seg: 2, Backing: "mem"}, Op{Op: "load", File: 1, Seg: 3, Backing: "file"},
+		Op{Op: "persist", Seg: 2, File: 2}, Op{Op: "persist", Seg: 3, File: 3},
+		Op{Op: "load", File: 2, Seg: 4, Backing: "mem"}, Op{Op: "load", File: 3, Seg: 5, Backing: "mem"},
+		Op{Op: "merge", File: 4, In: []int{1, 3}, Drops: []DropSpec{{Kind: "nil"}, {Kind: "set", Docs: []int{1}}}, Mode: 0, Buf: 4096},
+		Op{Op: "load", File: 4, Seg: 6, Backing: "mem"}, Op{Op: "layout", File: 1},
+		Op{Op: "wfaults", Seg: 2, Stop: block/3 + r.Intn(1000)}, Op{Op: "wfaults", Seg: 3, Stop: block/3 + r.Intn(1000)})
+	for _, seg := range []int{1, 2, 3, 4, 5, 6} {
+		sc.Ops = append(sc.Ops, Op{Op: "observe", Seg: seg, Level: "light"}, Op{Op: "stored", Seg: seg, N: 0}, Op{Op: "stored", Seg: seg, N: 1})
+	}
 	return sc
 }
